@@ -204,7 +204,7 @@ ROUND7 = {
  "C20": "The same HCL files evaluated 24 times under names that share one base name in several directories.",
 }
 ROUND8 = {
- "C02": "The differs of drivers opened against MySQL 8 / 5.7 / MariaDB / TiDB (null relations and every single edit; servers without CHECK support get the base without checks).",
+ "C02": "The differs of drivers opened against MySQL 8 / 5.7 / MariaDB / TiDB (null relations and every single edit; servers without CHECK support get the base without checks), PostgreSQL 15 / 10 (the same) and CockroachDB (null relations).",
  "C03": "A quarter of the column references inside generated-column and index expressions are written [name].",
  "C04": "Random graphs also through drivers opened against PostgreSQL 15 and CockroachDB.",
  "C06": "Sub-check diff-in-foreign-layout: migrate diff on golang-migrate / flyway / goose / dbmate / atlas directories, the layout named by the URL, the project file or --dir-format; the directory must validate in its own layout afterwards and a second diff finds nothing.",
